@@ -28,6 +28,7 @@ ASSUMPTIONS = ['hooks are user code and never sleep in this workload',
                'B(op) = sum over sequential phases of (graceful timeout rounded up to the 0.1 s poll + one step) + '
                'spawns x warmup_delay + 1 s + 0.2 s per process involved']
 BUDGET = {'quick': 240, 'thorough': 1500}
+CASE_TIMEOUT = 180          # a LIVE history (real daemon, real grace periods) takes 20-60 s of wall clock
 
 EXCL = ['stop', 'start', 'restart', 'reload', 'reloadseq', 'reloadterm', 'incr', 'decr', 'setnp']
 NONEX = ['kill', 'kill', 'signal']
@@ -68,11 +69,33 @@ def gen_spec(rnd):
 
 def plan(tier, seed):
     n = 6000 if tier == 'quick' else 150000
-    return [{'kind': 'random', 'seed': seed, 'idx': i} for i in range(n)]
+    return ([{'kind': 'random', 'seed': seed, 'idx': i} for i in range(n)] +
+            [{'kind': 'live', 'seed': seed, 'idx': i} for i in range(3 if tier == 'quick' else 30)])
+
+
+def live_case(spec, res):
+    """the same property on a real circusd with real workers: wall clock and /proc instead of the simulated kernel"""
+    from vlib import livehist
+    rnd = rng_for(spec['seed'], 'C05-live', spec['idx'])
+    ls = livehist.gen_spec(rnd, nsteps=5, stop_heavy=True)
+    rec = livehist.run(ls, strace=False, probe=True)
+    if rec['problem']:
+        res.inconclusive.append('live: ' + rec['problem'][:200])
+        return
+    livehist.judge_latency(rec, res, ls)
+    res.obs['live_daemons'] += 1
+    res.nontrivial(repr(('live', [(w['kind'], w['np']) for w in ls['watchers']], ls['steps'])))
+    if res.sample is None:
+        res.sample = {'live': True, 'watchers': ls['watchers'], 'steps': ls['steps']}
 
 
 def run_case(spec):
     res = CaseResult()
+    if spec.get('kind') == 'live':
+        live_case(spec, res)
+        for v in res.viol:
+            v['spec'] = spec
+        return res
     if 'steps' in spec:
         run_history(spec, res)
     else:
